@@ -392,6 +392,31 @@ func c46(c *Ctx) {
 			return ok && typeName(p.Type()) == "route"
 		}))
 		c.MustFact(nx, "cluster-drawn-only-for-a-route-action", Cmp(FieldLoad(c.field(xres, "route", "actionType")), token.EQL, ConstOfObj(c.konst(xdsrsrc, "RouteActionRoute"))))
+		// the route's WRR is filled with every weighted cluster at its configured weight
+		bld := c.fn(xres, "xdsResolver.newConfigSelector")
+		nW, nP := 0, 0
+		for _, ad := range callsIn(bld, Callee("internal/wrr", "WRR.Add")) {
+			w := ad.Common().Args[1]
+			switch {
+			case FieldLoad(c.field(xdsrsrc, "WeightedCluster", "Weight"))(stripConv(w)):
+				nW++
+			case ConstInt(1)(w):
+				nP++
+			default:
+				c.Expect(false, ad, bld, "wrr-weight-source", "a cluster is added to the route's WRR with a weight that is neither the configured cluster weight nor the plugin's 1")
+			}
+		}
+		c.Expect(nW == 1 && nP == 1, nil, bld, "clusters-added-to-the-route-wrr", "expected the weighted clusters (at their weight) and the plugin cluster (weight 1) to be added to the route's WRR")
+		for _, st := range storesToField(bld, c.field(xres, "route", "clusters")) {
+			c.ValueIs(st, st.Val, "route-uses-the-filled-wrr", func(v ssa.Value) bool {
+				for _, ad := range callsIn(bld, Callee("internal/wrr", "WRR.Add")) {
+					if ad.Common().Value != v {
+						return false
+					}
+				}
+				return true
+			})
+		}
 		spc := one(c, "SetPickedCluster", callsIn(sc, Callee("internal/xds/balancer/clustermanager", "SetPickedCluster")))
 		c.MustFact(spc, "picked-cluster-only-from-a-successful-draw", Truth(func(v ssa.Value) bool {
 			e, ok := v.(*ssa.Extract)
